@@ -8,7 +8,8 @@
    the hypotheses on token streams (row_wf, rows_ok, phys_line) are checked on every stream of every run by the harness. *)
 From Coq Require Import Lia.
 From Clikit Require Import Base.Prelude Base.Res Model.Conv Model.Markup Model.OutputM Model.Trace
-  Proofs.MarkupLemmas Proofs.OutputLemmas Proofs.TraceLemmas Proofs.LiteralLemmas Proofs.TraceRenderLemmas.
+  Proofs.MarkupLemmas Proofs.OutputLemmas Proofs.TraceLemmas Proofs.LiteralLemmas Proofs.TraceRenderLemmas
+  Proofs.TraceSolutionLemmas Proofs.TraceEscLemmas Proofs.TraceFramesLemmas.
 
 (* ---- the code snippet numbers its lines consecutively and marks exactly the failing line ---- *)
 Theorem line_numbers_length : forall u lines mark, length (line_numbers u lines mark) = length lines.
@@ -40,6 +41,21 @@ Theorem snippet_contains_failing_line : forall toks line before after,
     (Z.to_nat (Z.max (line - before - 1) 0) + k < length (split_to_lines toks))%nat.
 Proof. exact code_snippet_has_line. Qed.
 Print Assumptions snippet_contains_failing_line.
+
+(* the three statements above composed on code_snippet itself: whenever the source has the failing line, some line of
+   the snippet IS the failing line with its own number, marked, and no other line of the snippet is marked *)
+Theorem snippet_shows_the_failing_line_marked : forall u toks line before after d,
+  (0 <= before)%Z -> (0 <= after)%Z -> (1 <= line)%Z -> (line <= Z.of_nat (length (split_to_lines toks)))%Z ->
+  let lines := split_to_lines toks in
+  let off := Z.to_nat (Z.max (line - before - 1) 0) in
+  exists k, (Z.of_nat k < after + before + 1)%Z /\
+    nth k (code_snippet u toks line before after) d
+      = number_line u (number_width (length lines)) line line (nth (Z.to_nat (line - 1)) lines []) /\
+    marked u (nth k (code_snippet u toks line before after) d) /\
+    (forall j, (Z.of_nat j < after + before + 1)%Z -> (off + j < length lines)%nat ->
+               marked u (nth j (code_snippet u toks line before after) d) -> j = k).
+Proof. exact snippet_shows_failing_line. Qed.
+Print Assumptions snippet_shows_the_failing_line_marked.
 
 (* ---- every source line made of single-line tokens is shown verbatim, at its own number ---- *)
 (* pre: the tokens before row r (any rows, tokens spanning rows included); row: the tokens of row r, lying in order on
@@ -118,6 +134,41 @@ Theorem stack_trace_always_lists_frames : forall c ind fs,
   exists ls, render_trace c ind fs = Ok ls /\ forall f, In f (trace_frames c fs) -> exists k w, In (loc_line c ind w f k) ls.
 Proof. exact render_trace_lists_total. Qed.
 Print Assumptions stack_trace_always_lists_frames.
+(* The statements above are soundness ("what is listed was kept"); they also hold of a compact that lists nothing.
+   Completeness: compact loses no frame - every frame of the kept stack BUT ITS LAST ONE is in some collection, up to the
+   equality crashtest folds by (file, function, line number: frame_eqb) - and so has its location line in the trace. *)
+Theorem compact_loses_no_frame : forall l x, In x (removelast l) ->
+  exists y, In y (flat_map c_frames (compact l)) /\ frame_eqb x y = true.
+Proof. exact compact_complete. Qed.
+Print Assumptions compact_loses_no_frame.
+Theorem kept_frames_are_listed : forall c ind fs f,
+  t_verbose c = true -> (zlen (kept_frames c fs) - 1 <> 0)%Z -> In f (removelast (kept_frames c fs)) ->
+  exists ls g k w, render_trace c ind fs = Ok ls /\ frame_eqb f g = true /\ In (loc_line c ind w g k) ls.
+Proof. exact kept_frames_have_their_line. Qed.
+Print Assumptions kept_frames_are_listed.
+(* its hypotheses on the three-frame traceback a, b, v(ignored) at -v: the stack trace is printed and a is a kept frame
+   that is not the last kept one *)
+Example kept_frames_are_listed_instance :
+  t_verbose (RenderExamples.demo_cfg true) = true /\
+  (zlen (kept_frames (RenderExamples.demo_cfg true) IgnoredLast.fs) - 1 <> 0)%Z /\
+  In (IgnoredLast.fr 97 1 false) (removelast (kept_frames (RenderExamples.demo_cfg true) IgnoredLast.fs)).
+Proof. vm_compute. split; [reflexivity|]. split; [discriminate|left; reflexivity]. Qed.
+(* "But its last one": the listing leaves out the last KEPT frame (crashtest's compact stops before it: it is taken to be
+   the frame of the snippet), while the snippet shows the last frame of the TRACEBACK, ignored or not (full_report_*
+   below: render_snippet of last (x_frames x), no filter).  The two are the same frame unless the raising frame is under
+   the ignored path.  Then - FALSE of the model, and of the code (same listing, same "at" line: notes/a7-coq.md) - a kept
+   frame, the caller into the ignored code, is shown nowhere, and the ignored frame is shown below debug verbosity. *)
+Theorem kept_frame_lost_when_the_raising_frame_is_ignored_refuted :
+  exists c fs f, t_verbose c = true /\ t_debug c = false /\ In f (kept_frames c fs) /\
+    ~ In f (trace_frames c fs) /\ f <> last fs dflt_frame /\ f_ignored (last fs dflt_frame) = true.
+Proof.
+  exists (RenderExamples.demo_cfg true), IgnoredLast.fs, (IgnoredLast.fr 98 2 false).
+  destruct IgnoredLast.kept_frame_shown_nowhere as (H1 & H2 & H3 & H4 & H5 & H6).
+  split; [exact H1|]. split; [exact H2|]. split; [exact H3|]. split; [|split; [|exact H6]].
+  - rewrite H4. intros [K|[]]. discriminate K.
+  - rewrite H5. discriminate.
+Qed.
+Print Assumptions kept_frame_lost_when_the_raising_frame_is_ignored_refuted.
 (* under a listed frame, below debug verbosity: its own line, highlighted - or, when tokenize raised on it (whatever it
    raised) or no line came out, as it is (frame_text, plain_code); at debug verbosity: the snippet, or nothing when the
    file cannot be read or tokenized *)
@@ -171,9 +222,15 @@ Theorem decorated_line_shows_the_same_text : forall sty sk ps, pieces_ok sty ps 
   exists out, colorize sty true sk (line_str ps) = Ok (sk, out) /\ strip_sgr out = flat_map piece_shown ps.
 Proof. exact line_decorated. Qed.
 Print Assumptions decorated_line_shows_the_same_text.
-Theorem line_never_makes_the_formatter_fail : forall sty sk col ps, pieces_ok sty ps -> pieces_noesc ps ->
+(* whether colorize succeeds, and the stack it leaves, do not depend on whether it decorates (no hypothesis on ESC:
+   pieces_noesc is needed only to read the text back from under the escape codes, above) *)
+Theorem decorating_changes_neither_success_nor_stack : forall sty sk m sk' t,
+  colorize sty false sk m = Ok (sk', t) -> exists out, colorize sty true sk m = Ok (sk', out).
+Proof. exact colorize_status. Qed.
+Print Assumptions decorating_changes_neither_success_nor_stack.
+Theorem line_never_makes_the_formatter_fail : forall sty sk col ps, pieces_ok sty ps ->
   exists out, colorize sty col sk (line_str ps) = Ok (sk, out).
-Proof. exact line_never_raises. Qed.
+Proof. exact line_never_raises_any. Qed.
 Print Assumptions line_never_makes_the_formatter_fail.
 (* highlighted source code: every chunk shows its text, in every style table *)
 Theorem highlighted_line_shows_the_source : forall sty sk cs,
@@ -219,27 +276,14 @@ Theorem report_lines_always_exist : forall c simple ind x, exists ls, render_lin
 Proof. exact render_lines_total. Qed.
 Print Assumptions report_lines_always_exist.
 (* writing them cannot fail ... *)
-Theorem writing_the_report_never_fails : forall sty c simple o x ls,
-  out_ok sty o -> resolvable sty st_error -> resolvable sty st_b ->
-  render_lines c simple (o_indent o) x = Ok ls ->
-  (decorated o = true -> Forall (fun wl => no_esc (snd wl)) ls) ->
-  exists bytes, render c simple o x = Ok bytes.
-Proof. exact render_never_fails_l. Qed.
+Theorem writing_good_lines_never_fails : forall sty ls o, out_ok sty o -> Forall (fun wl : wline => good_line sty (snd wl)) ls ->
+  exists o', write_lines o ls = Ok o' /\ out_ok sty o' /\ o_on o' = o_on o /\ f_kind (o_fmt o') = f_kind (o_fmt o).
+Proof. exact write_lines_good_any. Qed.
+Print Assumptions writing_good_lines_never_fails.
+Theorem writing_the_report_never_fails : forall sty c simple o x,
+  out_ok sty o -> resolvable sty st_error -> resolvable sty st_b -> exists bytes, render c simple o x = Ok bytes.
+Proof. exact render_never_fails_any. Qed.
 Print Assumptions writing_the_report_never_fails.
-(* ... so render never fails.  On an output that does not decorate (plain formatter, or formatting off): for EVERY
-   exception case, no hypothesis on it *)
-Theorem render_never_fails_undecorated : forall sty c simple o x,
-  out_ok sty o -> resolvable sty st_error -> resolvable sty st_b -> decorated o = false ->
-  exists bytes, render c simple o x = Ok bytes.
-Proof. exact render_never_fails_plain. Qed.
-Print Assumptions render_never_fails_undecorated.
-(* on any output, when - if it decorates - no line holds ESC *)
-Theorem render_never_fails_given_escape_free_lines : forall sty c simple o x,
-  out_ok sty o -> resolvable sty st_error -> resolvable sty st_b ->
-  (decorated o = true -> forall ls, render_lines c simple (o_indent o) x = Ok ls -> Forall (fun wl => no_esc (snd wl)) ls) ->
-  exists bytes, render c simple o x = Ok bytes.
-Proof. exact render_never_fails. Qed.
-Print Assumptions render_never_fails_given_escape_free_lines.
 (* the lines hold no ESC when the inputs hold none (class name, message, file and function names, source text, tokens;
    the path separator is not ESC) *)
 Theorem escape_free_inputs_give_escape_free_lines : forall c simple ind x ls,
@@ -249,14 +293,62 @@ Print Assumptions escape_free_inputs_give_escape_free_lines.
 (* THE headline.  Inputs: the exception case x (class name, message, frames with the token streams of their files and
    lines - or the fact that tokenize / reading raised), the configuration c (verbosity, UTF-8, directories), the report
    mode, the output o.  Hypotheses that remain: o is an ordinary output (not a section) with an ANSI or plain formatter
-   whose style stack is empty (out_ok); its style table resolves "error" and "b"; if o decorates, the inputs hold no
-   ESC (inputs_ne).  No hypothesis on tokenize.  Then ExceptionTrace.render returns its bytes: it raises nothing. *)
+   whose style stack is empty (out_ok); its style table resolves "error" and "b".  No hypothesis on tokenize, and - the
+   earlier statement had one - none on ESC in the inputs when the output decorates.  Then ExceptionTrace.render returns
+   its bytes: it raises nothing. *)
 Theorem render_never_fails_unconditionally : forall sty c simple o x,
-  out_ok sty o -> resolvable sty st_error -> resolvable sty st_b ->
-  (decorated o = true -> inputs_ne c x) ->
-  exists bytes, render c simple o x = Ok bytes.
-Proof. exact TraceRenderLemmas.render_never_fails_unconditionally. Qed.
+  out_ok sty o -> resolvable sty st_error -> resolvable sty st_b -> exists bytes, render c simple o x = Ok bytes.
+Proof. exact render_never_fails_any. Qed.
 Print Assumptions render_never_fails_unconditionally.
+(* ... and for the formatters clikit itself builds there is no premise on the style table either: a formatter made by
+   new_formatter (PlainFormatter / AnsiFormatter) over a style set that contains the styles of DefaultStyleSet (what the
+   formatters take when given none, and what DefaultApplicationConfig hands them) resolves "error" (pastel's own, then
+   clikit's) and "b" (DefaultStyleSet's). *)
+Theorem clikit_formatters_resolve_error_and_b : forall f, clikit_formatter f ->
+  resolvable (f_styles f) st_error /\ resolvable (f_styles f) st_b.
+Proof. exact clikit_formatter_styles. Qed.
+Print Assumptions clikit_formatters_resolve_error_and_b.
+Theorem any_style_set_with_b_resolves_b : forall k set f c, new_formatter k set = Ok f -> k <> FNull -> In c set -> c_tag c = Some st_b ->
+  resolvable (f_styles f) st_b.
+Proof. exact new_formatter_b. Qed.
+Print Assumptions any_style_set_with_b_resolves_b.
+Theorem render_never_fails_on_clikit_outputs : forall c simple o x, clikit_output o -> exists bytes, render c simple o x = Ok bytes.
+Proof. exact render_never_fails_clikit. Qed.
+Print Assumptions render_never_fails_on_clikit_outputs.
+Theorem render_with_solutions_never_fails_on_clikit_outputs : forall c simple o x sols, clikit_output o ->
+  exists bytes, render_sol c simple o x sols = Ok bytes.
+Proof. exact render_sol_never_fails_clikit. Qed.
+Print Assumptions render_with_solutions_never_fails_on_clikit_outputs.
+Theorem simple_report_on_clikit_outputs : forall c o x, clikit_output o -> decorated o = false -> (o_indent o <= 0)%Z ->
+  render c true o x = Ok (o_buf o ++ shown (x_msg x) ++ [NL]).
+Proof. exact simple_bytes_clikit. Qed.
+Print Assumptions simple_report_on_clikit_outputs.
+Theorem full_report_on_clikit_outputs : forall c o x, clikit_output o -> decorated o = false -> (0 <= o_indent o)%Z -> x_frames x <> [] ->
+  let ind := (o_indent o + 2)%Z in
+  exists tr_p sn_p,
+    render_trace c ind (x_frames x) = Ok (map pline_w tr_p) /\
+    render_snippet c ind (last (x_frames x) dflt_frame) = Ok (map pline_w sn_p) /\
+    render c false o x
+    = Ok (o_buf o ++ flat_map shown_line tr_p
+            ++ [NL] ++ spaces ind ++ shown (ind_text ind (x_name x)) ++ [NL]
+            ++ [NL] ++ spaces ind ++ shown (ind_text ind (msg_text (x_msg x))) ++ [NL]
+            ++ flat_map shown_line sn_p).
+Proof. exact full_bytes_clikit. Qed.
+Print Assumptions full_report_on_clikit_outputs.
+(* non-vacuity: the plain and both ANSI formatters over DefaultStyleSet itself are such formatters; and a DECORATED
+   report of an exception whose class name and message hold ESC [ 3 1 m comes out (the case the earlier ESC hypothesis
+   excluded) *)
+Example default_formatters_qualify : forall k, k <> FNull -> clikit_formatter (default_formatter k).
+Proof. exact default_formatters_are_clikit. Qed.
+Definition esc_text : str := [27;91;51;49;109;114;101;100;27;91;48;109]%N.
+Definition esc_out : outp := {| o_indent := 0; o_on := true; o_sec := false; o_fmt := default_formatter (FAnsi true); o_buf := [] |}.
+Example esc_out_qualifies : clikit_output esc_out /\ decorated esc_out = true.
+Proof. split; [split; [reflexivity|apply default_formatters_are_clikit; discriminate]|reflexivity]. Qed.
+Example decorated_report_with_escapes_in_the_message :
+  exists bytes, render (RenderExamples.demo_cfg true) false esc_out
+                  {| x_name := esc_text; x_msg := esc_text; x_frames := [RenderExamples.demo_frame; RenderExamples.demo_frame] |} = Ok bytes
+                /\ (10 < length bytes)%nat.
+Proof. eexists. split; [vm_compute; reflexivity|cbn; lia]. Qed.
 (* a failure of render, if there is one (outside these hypotheses), is a failure of writing: never of producing the lines *)
 Theorem render_error_is_a_write_error : forall c simple o x e,
   render c simple o x = Err e -> exists ls, render_lines c simple (o_indent o) x = Ok ls /\ write_lines o ls = Err e.
@@ -335,7 +427,6 @@ Proof. exact full_bytes_one_line. Qed.
 Print Assumptions full_report_one_line_message.
 
 (* ---- the solutions (ExceptionTrace._render_solution): proofs in Proofs/TraceSolutionLemmas.v ---- *)
-From Clikit Require Import Proofs.TraceSolutionLemmas.
 (* the line of a solution is a line of literals and safe separators - the explicit pieces: the bullet, the title without
    its trailing dots, ": ", the description (four blanks after every line break, blanks at the ends dropped), the links *)
 Theorem solution_line_is_its_pieces : forall utf8 s, solution_line utf8 s = line_str (sol_pieces utf8 s).
@@ -356,37 +447,20 @@ Print Assumptions every_written_line_with_solutions_is_literals_and_separators.
 Theorem solutions_add_no_failure : forall c simple ind x sols, exists ls, render_lines_sol c simple ind x sols = Ok ls.
 Proof. exact render_lines_sol_total. Qed.
 Print Assumptions solutions_add_no_failure.
-(* ... and writing them cannot fail ... *)
-Theorem writing_the_report_with_solutions_never_fails : forall sty c simple o x sols ls,
-  out_ok sty o -> resolvable sty st_error -> resolvable sty st_b ->
-  render_lines_sol c simple (o_indent o) x sols = Ok ls ->
-  (decorated o = true -> Forall (fun wl => no_esc (snd wl)) ls) ->
-  exists bytes, render_sol c simple o x sols = Ok bytes.
-Proof. exact render_sol_never_fails_l. Qed.
+(* ... and writing them cannot fail: render with a solution provider repository never fails, decorated or not,
+   for every exception case and solutions *)
+Theorem writing_the_report_with_solutions_never_fails : forall sty c simple o x sols,
+  out_ok sty o -> resolvable sty st_error -> resolvable sty st_b -> exists bytes, render_sol c simple o x sols = Ok bytes.
+Proof. exact render_sol_never_fails_any. Qed.
 Print Assumptions writing_the_report_with_solutions_never_fails.
-(* ... so render with a solution provider repository never fails: undecorated, for every exception case and solutions *)
-Theorem render_with_solutions_never_fails_undecorated : forall sty c simple o x sols,
-  out_ok sty o -> resolvable sty st_error -> resolvable sty st_b -> decorated o = false ->
-  exists bytes, render_sol c simple o x sols = Ok bytes.
-Proof. exact render_sol_never_fails_plain. Qed.
-Print Assumptions render_with_solutions_never_fails_undecorated.
-Theorem render_with_solutions_never_fails_given_escape_free_lines : forall sty c simple o x sols,
-  out_ok sty o -> resolvable sty st_error -> resolvable sty st_b ->
-  (decorated o = true -> forall ls, render_lines_sol c simple (o_indent o) x sols = Ok ls -> Forall (fun wl => no_esc (snd wl)) ls) ->
-  exists bytes, render_sol c simple o x sols = Ok bytes.
-Proof. exact render_sol_never_fails. Qed.
-Print Assumptions render_with_solutions_never_fails_given_escape_free_lines.
 Theorem escape_free_solutions_give_escape_free_lines : forall c simple ind x sols ls, inputs_ne c x -> Forall sol_ne sols ->
   render_lines_sol c simple ind x sols = Ok ls -> Forall (fun wl => no_esc (snd wl)) ls.
 Proof. exact lines_sol_noesc. Qed.
 Print Assumptions escape_free_solutions_give_escape_free_lines.
-(* the headline with solutions: hypotheses as in render_never_fails_unconditionally, plus ESC-free solution texts when
-   the output decorates *)
+(* the headline with solutions: hypotheses as in render_never_fails_unconditionally - none on the solution texts *)
 Theorem render_with_solutions_never_fails_unconditionally : forall sty c simple o x sols,
-  out_ok sty o -> resolvable sty st_error -> resolvable sty st_b ->
-  (decorated o = true -> inputs_ne c x /\ Forall sol_ne sols) ->
-  exists bytes, render_sol c simple o x sols = Ok bytes.
-Proof. exact render_sol_never_fails_unconditionally. Qed.
+  out_ok sty o -> resolvable sty st_error -> resolvable sty st_b -> exists bytes, render_sol c simple o x sols = Ok bytes.
+Proof. exact render_sol_never_fails_any. Qed.
 Print Assumptions render_with_solutions_never_fails_unconditionally.
 (* undecorated, the bytes are those of the report followed by, per solution, a blank line and the block:
    sol_shown ind utf8 s = blanks, bullet, blank, shown title, ": ", shown description, the links each on its own line
